@@ -79,6 +79,9 @@ def run(tier, seed):
                                   gen_kw=dict(maxdepth=2, maxstmts=3), base_args=())
     if quick:
         base = [b for i, b in enumerate(base) if i % 3 == 0 or b[0].startswith('gen:') or b[0].startswith('corpus/')]
+    for i in range(3 if quick else 20):
+        sd = rng.randrange(1 << 30)
+        base.append(('range:%d' % sd, genprog.gen_range_program(sd)[1], []))
     items = []
     for name, src, args in base:
         for k, row in enumerate(rows):
